@@ -17,8 +17,7 @@
 package caching
 
 import (
-	"strings"
-
+	"github.com/bytedance/sonic/internal/caching"
 	"github.com/bytedance/sonic/internal/resolver"
 )
 
@@ -35,7 +34,7 @@ func NewFieldCache(fields []resolver.FieldMeta) *FieldCache {
 	for i, field := range fields {
 		name := field.Name
 		f.caseSensitive[name] = i
-		lowerName := strings.ToLower(name)
+		lowerName := caching.FoldName(name)
 		if existingIdx, ok := f.caseInsensitive[lowerName]; !ok || i < existingIdx {
 			f.caseInsensitive[lowerName] = i
 		}
@@ -48,7 +47,7 @@ func (f *FieldCache) Get(name string, caseSensitive bool) int {
 		return idx
 	}
 	if !caseSensitive {
-		if idx, ok := f.caseInsensitive[strings.ToLower(name)]; ok {
+		if idx, ok := f.caseInsensitive[caching.FoldName(name)]; ok {
 			return idx
 		}
 	}
